@@ -142,6 +142,13 @@ pub fn run(run: &mut Run) {
     sel.counters = true;
     sel.clocks = true;
     sel.ray = None;
+    if !thorough {
+        // quick: applying a move does not depend on check geometry; these families stay in the
+        // thorough tier here
+        sel.boxk = None;
+        sel.backrank = false;
+        sel.multicheck = None;
+    }
     run_universes(run, &sel, DISAGREE, &check_pos);
     spawn_release_leg(run, "release-configuration leg");
 }
